@@ -48,7 +48,25 @@ const char* nondet_ptr(void);
 #define OP2_MAX_uint64_t UINT64_MAX
 #define OP2_MAX_size_t   SIZE_MAX
 #define OP2_MAX_int32_t  INT32_MAX
+#define OP2_MIN_int32_t  INT32_MIN
+#define OP2_MIN_int64_t  INT64_MIN
+#define OP2_MAX_int64_t  INT64_MAX
+#define OP2_MAX_int16_t  INT16_MAX
+#define OP2_MIN_int16_t  INT16_MIN
 #define OP2_MIN(a, b) ((a) < (b) ? (a) : (b))
+
+/* R18 / R14 helpers (loop-free): byte equality of small fixed-size objects, membership in a small fixed array */
+static inline bool op2_bytes_eq(const void* a, const void* b, size_t n)
+{
+  const unsigned char* x = (const unsigned char*)a; const unsigned char* y = (const unsigned char*)b;
+#define OP2_BE(k) ((k) >= n || x[k] == y[k])
+  return OP2_BE(0) && OP2_BE(1) && OP2_BE(2) && OP2_BE(3) && OP2_BE(4) && OP2_BE(5) && OP2_BE(6) && OP2_BE(7) && OP2_BE(8) && OP2_BE(9) && OP2_BE(10) && OP2_BE(11)
+      && OP2_BE(12) && OP2_BE(13) && OP2_BE(14) && OP2_BE(15) && OP2_BE(16) && OP2_BE(17) && OP2_BE(18) && OP2_BE(19) && OP2_BE(20) && OP2_BE(21) && OP2_BE(22)
+      && OP2_BE(23) && OP2_BE(24) && OP2_BE(25) && OP2_BE(26) && OP2_BE(27) && OP2_BE(28) && OP2_BE(29) && OP2_BE(30) && OP2_BE(31);
+}
+#define OP2_BYTES_EQ(a, b) (sizeof(a) <= 32 ? op2_bytes_eq(&(a), &(b), sizeof(a)) : (memcmp(&(a), &(b), sizeof(a)) == 0))
+#define OP2_AC(A, v, k) ((k) < sizeof((A).e) / sizeof((A).e[0]) && (A).e[(k) < sizeof((A).e) / sizeof((A).e[0]) ? (k) : 0] == (v))
+#define OP2_ARR_CONTAINS(A, v) (OP2_AC(A, v, 0) || OP2_AC(A, v, 1) || OP2_AC(A, v, 2) || OP2_AC(A, v, 3) || OP2_AC(A, v, 4) || OP2_AC(A, v, 5) || OP2_AC(A, v, 6) || OP2_AC(A, v, 7))
 
 /* 128-bit helpers so that specifications cannot wrap */
 #define W(x) ((U128)(x))
